@@ -428,6 +428,68 @@ fn run_conc(c: &ConcCase) -> Verdict {
     v
 }
 
+// ---------------------------------------------------------------------------
+// Aged history: numbers accepted with timestamps just inside the one-hour window fall out of the history a few
+// seconds later; housekeeping (cleanup_old_sequences) must not make the store forget that it accepted them.
+// ---------------------------------------------------------------------------
+#[derive(Debug, Clone, Serialize, Deserialize)]
+pub struct AgedCase {
+    n: u8,
+    control: u8,
+    same_hash: bool,
+    via_batch: bool,
+}
+fn run_aged(c: &AgedCase) -> Verdict {
+    let rt = tokio::runtime::Builder::new_current_thread().enable_all().build().unwrap();
+    rt.block_on(async {
+        let mut v = Verdict::new();
+        let dir = tempfile::tempdir().unwrap();
+        let sys = MonotonicCounterSystem::new_with_sync_interval(dir.path().join("counters.bin"), Duration::from_secs(3600)).await.unwrap();
+        let (p, q) = (uid(0), uid(1));
+        let n = 1 + (c.n % 6) as u64;
+        let m = 1 + (c.control % 4) as u64;
+        // 7 s inside the window (the dead band around the edge is 5 s)
+        let old_ts = now().saturating_sub(3600 - 7);
+        for seq in 1..=n {
+            let r = sys.batch_update(vec![BatchUpdateRequest { user_id: p.clone(), sequence: seq, message_hash: [seq as u8; 32], timestamp: old_ts }]).await.unwrap();
+            if !matches!(r[0].result, R::Valid) {
+                // machine too slow (the timestamp slid out of the window before it was handled): not judged
+                v.class("scene_not_set(not judged)");
+                return v;
+            }
+        }
+        for seq in 1..=m {
+            let _ = sys.validate_sequence(&q, seq, [seq as u8; 32]).await.unwrap();
+        }
+        // the old entries are now older than an hour
+        tokio::time::sleep(Duration::from_millis(8500)).await;
+        sys.cleanup_old_sequences().await.unwrap();
+        for (peer, upto, who) in [(&p, n, "aged peer"), (&q, m, "control peer")] {
+            for seq in 1..=upto {
+                let h = if c.same_hash { [seq as u8; 32] } else { [0xa0 ^ seq as u8; 32] };
+                let r = if c.via_batch {
+                    sys.batch_update(vec![BatchUpdateRequest { user_id: peer.clone(), sequence: seq, message_hash: h, timestamp: now() }]).await.unwrap()[0].result.clone()
+                } else {
+                    sys.validate_sequence(peer, seq, h).await.unwrap()
+                };
+                if matches!(r, R::Valid) {
+                    v.fail(format!("{ID}/cleanup_old_sequences/accepted-number-accepted-again-after-cleanup"), format!("{who}: number {seq} of 1..={upto} was accepted again after its history entry aged out and cleanup ran"));
+                }
+            }
+            let next = sys.validate_sequence(peer, upto + 1, [0x77; 32]).await.unwrap();
+            if !matches!(next, R::Valid) {
+                v.fail(format!("{ID}/cleanup_old_sequences/next-number-refused-after-cleanup"), format!("{who}: number {} → {next:?}", upto + 1));
+            }
+            let again = sys.validate_sequence(peer, upto + 1, [0x78; 32]).await.unwrap();
+            if matches!(again, R::Valid) {
+                v.fail(format!("{ID}/cleanup_old_sequences/accepted-number-accepted-again-after-cleanup"), format!("{who}: number {} accepted twice", upto + 1));
+            }
+        }
+        v.nt(true);
+        v
+    })
+}
+
 pub fn run(run: &Run) {
     run.assume("wall-clock window edges (±60 s, −3600 s) are given a 5 s dead band in which any classification is accepted");
     run.assume("reload is reached through the public start_sync_task (first interval tick is immediate) and observed via get_stats().persistence_ops");
@@ -444,12 +506,16 @@ pub fn run(run: &Run) {
     }
     let conc = (2u8..=16, run.tier.pick(20u16..60, 100u16..400), any::<bool>(), any::<bool>()).prop_map(|(threads, rounds, via_batch, distinct_hashes)| ConcCase { threads, rounds, via_batch, distinct_hashes });
     run.prop("concurrent", run.tier.pick(144, 800), 1, conc, run_conc);
+    run.set_rule("aged", "1..6 numbers accepted (batch path) with timestamps 7 s inside the one-hour window, a control peer with fresh entries; 8.5 s later the old entries are older than an hour and cleanup_old_sequences runs: every accepted number must still be refused (same or different hash, validate or batch path), the next number accepted exactly once; all non-trivial");
+    let aged = (any::<u8>(), any::<u8>(), any::<bool>(), any::<bool>()).prop_map(|(n, control, same_hash, via_batch)| AgedCase { n, control, same_hash, via_batch });
+    run.prop("aged", run.tier.pick(8, 64), shards_for(run.tier), aged, run_aged);
 }
 
 pub fn replay(run: &Run, sub: &str, case: &Value) -> Option<bool> {
     match sub {
         "history" => Some(run.eval_case("replay/history", &from_value::<Case>(case)?, &run_case)),
         "concurrent" => Some(run.eval_case("replay/concurrent", &from_value::<ConcCase>(case)?, &run_conc)),
+        "aged" => Some(run.eval_case("replay/aged", &from_value::<AgedCase>(case)?, &run_aged)),
         _ => None,
     }
 }
